@@ -273,6 +273,25 @@ func monC08() mc.Monitor {
 					}
 				}
 			}
+			// with a configured delay of 30 minutes or more nothing can be due inside a run that takes seconds
+			for _, leaf := range sortedKeys(byLeaf) {
+				for _, q := range queuePathUp(pre, leaf) {
+					if q.Path == "root" || len(q.Max) == 0 {
+						continue
+					}
+					if d, err := time.ParseDuration(q.QuotaDelay); err == nil && d >= 30*time.Minute {
+						exceeded := false
+						for t, mv := range q.Max {
+							if eff(q)[t] > mv {
+								exceeded = true
+							}
+						}
+						if exceeded {
+							out = append(out, v("C08", "quota-preemption-before-delay", "delay", "quota preemption took victims under %s whose quota.preemption.delay is %s; the maximum was lowered moments ago", q.Path, q.QuotaDelay))
+						}
+					}
+				}
+			}
 			// some queue on the path must exceed its maximum, its delay must have elapsed, and the claim without the smallest
 			// victim must not already cover the excess
 			for _, leaf := range sortedKeys(byLeaf) {
@@ -450,6 +469,8 @@ func (w c07World) yaml() string {
 	body := ""
 	if w.Tree == "flat" {
 		body = q(10, "a", false, "") + q(10, "b", false, "")
+	} else if w.Tree == "flat3" {
+		body = q(10, "a", false, "") + q(10, "b", false, "") + q(10, "c", false, "")
 	} else {
 		body = q(10, "p", true, q(14, "a", false, "")+q(14, "b", false, "")) + q(10, "c", false, "")
 	}
@@ -592,6 +613,37 @@ func c07Worlds(thorough bool, emit func(c07World)) {
 	if thorough {
 		build("flat", "root.a", []string{"root.b"}, nil, nil, map[string]string{"root.b": "fence"})
 	}
+	// a priority fenced sibling next to a plain sibling that holds an allocation outranking the ask
+	for _, a1 := range slot([]string{"root.b"}) {
+		for _, a2 := range slot([]string{"root.c"}) {
+			for _, hp := range []int32{0, 10} {
+				for _, a3 := range []c07Alloc{{}, {Queue: "root.c", Node: "n1", Size: 1, Prio: 10}, {Queue: "root.b", Node: "n2", Size: 1, Prio: 10}} {
+					a2p := a2
+					a2p.Prio = hp
+					var allocs []c07Alloc
+					used := map[string]int64{}
+					for _, a := range []c07Alloc{a1, a2p, a3} {
+						if a.Queue != "" {
+							allocs = append(allocs, a)
+							used[a.Node] += a.Size
+						}
+					}
+					if used["n1"] > 3 || used["n2"] > 2 {
+						continue
+					}
+					for _, ao := range askOpts {
+						if ao.req != "" || ao.yng || !ao.apo {
+							continue
+						}
+						for _, bg := range []int64{0, 1} {
+							emit(c07World{Tree: "flat3", Policies: map[string]string{}, Guar: map[string]int64{"root.a": 3, "root.b": bg, "root.c": bg}, PrioPol: map[string]string{"root.b": "fence"},
+								Allocs: allocs, AskQueue: "root.a", AskSize: ao.size, AskPrio: ao.prio, AskAPO: true})
+						}
+					}
+				}
+			}
+		}
+	}
 }
 
 type c07Run struct {
@@ -690,6 +742,11 @@ func c07ShardProp(prop, tier string, shard, n int) *CustomResult {
 
 // preemption scenario for the explicit-state search: releases, confirmations and quota changes interleave with the decisions
 func scnPreempt(name string, quota bool) *world.Scenario {
+	return scnPreemptG(name, quota, 1, 3, "1ms", "1ms")
+}
+
+// scnPreemptG: guaranteed of the victim queue b and of the asker a, quota preemption delays of the second and third document
+func scnPreemptG(name string, quota bool, bGuar, aGuar int, delay1, delay2 string) *world.Scenario {
 	conf := func(bmax string) string {
 		return `partitions:
   - name: default
@@ -704,18 +761,19 @@ func scnPreempt(name string, quota bool) *world.Scenario {
             properties:
               preemption.delay: 1s
             resources:
-              guaranteed: {memory: 3}
+              guaranteed: {memory: ` + fmt.Sprint(aGuar) + `}
           - name: b
             properties:
               preemption.delay: 1s
-              quota.preemption.delay: 1ms
+              quota.preemption.delay: DELAY
             resources:
-              guaranteed: {memory: 1}
+              guaranteed: {memory: ` + fmt.Sprint(bGuar) + `}
 ` + bmax
 	}
+	bm := "              max: {memory: 2}\n"
 	return &world.Scenario{
 		Name:    name,
-		Configs: []string{conf(""), conf("              max: {memory: 2}\n")},
+		Configs: []string{strings.ReplaceAll(conf(""), "DELAY", delay1), strings.ReplaceAll(conf(bm), "DELAY", delay1), strings.ReplaceAll(conf(bm), "DELAY", delay2)},
 		Preempt: true,
 		Nodes:   []world.NodeSpec{{ID: "n1", Cap: world.M(4)}, {ID: "n2", Cap: world.M(2)}},
 		Apps: []world.AppSpec{
@@ -751,7 +809,7 @@ func checkC07C08(prop string) func(tier string, seed int64) *CustomResult {
 			depth = 7
 		}
 		states, trans := 0, 0
-		for _, sc := range []string{"preempt", "preempt-quota"} {
+		for _, sc := range []string{"preempt", "preempt-quota", "preempt-g3", "preempt-quota-delay"} {
 			rep := mc.Explore(mc.Config{Scenario: sc + "-" + prop, Depth: depth, MapMode: 1, Budget: 10 * time.Minute, ExtraDepth: -1})
 			states += rep.States
 			trans += rep.Transitions
@@ -787,6 +845,8 @@ func init() {
 		}
 		mc.Register(&mc.ScenarioDef{Scn: scnPreempt("preempt-"+prop, false), Monitors: mons})
 		mc.Register(&mc.ScenarioDef{Scn: scnPreempt("preempt-quota-"+prop, true), Monitors: mons})
+		mc.Register(&mc.ScenarioDef{Scn: scnPreemptG("preempt-g3-"+prop, false, 3, 4, "1ms", "1ms"), Monitors: mons})
+		mc.Register(&mc.ScenarioDef{Scn: scnPreemptG("preempt-quota-delay-"+prop, true, 1, 4, "1h", "3h"), Monitors: mons})
 	}
 	registerCheck(&CheckDef{Prop: "C07", Level: "model_checking", Technique: "exhaustive product of small preemption worlds built on the real core plus explicit-state search of preemption scenarios; every PREEMPTED_BY_SCHEDULER release is judged from the pre-state against the eligibility rules", Custom: checkC07C08("C07"),
 		Assumptions: []string{"the priority rule is only judged where no priority fence or offset is configured on either path", "preemption attempt frequency 0, queue preemption delay 1s with asks created in 1970 (old) or one hour in the future (young)"}})
